@@ -15,6 +15,46 @@ pub struct Dec {
     /// source block length carried in the payload ID (FEC ID 129 only)
     pub sbl: Option<u32>,
     pub payload: Vec<u8>,
+    /// the fields of EXT_FTI (HET 64) as the FEC scheme of the codepoint lays them out, `None` = no EXT_FTI:
+    /// FEC ID 0 (RFC 5445): L(48) E(16) B(32); 5 (RFC 5510): L(48) E(16) B(8) max_n(8);
+    /// 129 (RFC 5445 small block systematic): L(48) instance(16) E(16) B(16) max_n(16);
+    /// 6 (RFC 6330): F(40) T(16) Z(8) N(16) Al(8); 1 (RFC 5053): F(48) T(16) Z(16) N(8) Al(8)
+    pub fti: Option<Vec<u64>>,
+}
+
+/// walk the header extensions of [from, to) (RFC 5651 §5.2: HET < 128 variable length with HEL in words, HET >= 128
+/// one word) and decode EXT_FTI by the layout of FEC encoding ID `cp`; `Err` = malformed extension area / EXT_FTI
+fn ext_fti(d: &[u8], from: usize, to: usize, cp: u8) -> Result<Option<Vec<u64>>, ()> {
+    let mut pos = from;
+    let mut out = None;
+    while pos < to {
+        let het = d[pos];
+        if pos + 1 >= to {
+            return Err(());
+        }
+        let len = if het >= 128 { 4 } else { d[pos + 1] as usize * 4 };
+        if len == 0 || pos + len > to {
+            return Err(());
+        }
+        if het == 64 {
+            let x = &d[pos..pos + len];
+            let f = |a: usize, b: usize| be(&x[a..b]) as u64;
+            let v = match (cp, len) {
+                (0, 16) => vec![f(2, 8), f(10, 12), f(12, 16)],
+                (5, 12) => vec![f(2, 8), f(8, 10), f(10, 11), f(11, 12)],
+                (129, 16) => vec![f(2, 8), f(8, 10), f(10, 12), f(12, 14), f(14, 16)],
+                (6, 16) => vec![f(2, 7), f(8, 10), f(10, 11), f(11, 13), f(13, 14)],
+                (1, 16) => vec![f(2, 8), f(10, 12), f(12, 14), f(14, 15), f(15, 16)],
+                _ => return Err(()),
+            };
+            if out.is_some() {
+                return Err(());
+            }
+            out = Some(v);
+        }
+        pos += len;
+    }
+    Ok(out)
 }
 
 fn be(b: &[u8]) -> u128 {
@@ -51,7 +91,8 @@ pub fn decode(d: &[u8]) -> Option<Dec> {
     }
     let tsi = be(&d[4 + cci_len..4 + cci_len + tsi_len]) as u64;
     let toi = be(&d[4 + cci_len + tsi_len..fixed]);
-    // header extensions occupy [fixed, hdr_len): skipped (HDR_LEN is authoritative)
+    // header extensions occupy [fixed, hdr_len) (HDR_LEN is authoritative): only EXT_FTI is decoded
+    let fti = ext_fti(d, fixed, hdr_len, cp).ok()?;
     let p = &d[hdr_len..];
     let (sbn, esi, sbl, idlen) = match cp {
         0 | 1 => {
@@ -84,5 +125,5 @@ pub fn decode(d: &[u8]) -> Option<Dec> {
         }
         _ => return None,
     };
-    Some(Dec { toi, tsi, cp, close_session: a, close_object: b, sbn, esi, sbl, payload: p[idlen..].to_vec() })
+    Some(Dec { toi, tsi, cp, close_session: a, close_object: b, sbn, esi, sbl, payload: p[idlen..].to_vec(), fti })
 }
